@@ -221,5 +221,36 @@ def holds (last : Option (Op × Bool)) (cnames lnames : List String) (ob : Obser
   | none => true
   | some (op, ok) => lastOp op ok (fun n => ((cnames.zip ob.liveC).lookup n).join) (fun n => ((lnames.zip ob.liveL).lookup n).join)
 
+/-! ### `rm` cases: ONE `RemoveClusterHosts` call with several addresses on a cluster of known hosts -/
+
+/-- what the harness sees after the call -/
+structure RmObs where
+  ok : Bool
+  live : List String       -- addresses of the live host set, in `HostSet.Range` order
+  stored : List String     -- addresses of the hosts recorded in the effective config, in order
+  served : List String     -- LISTED addresses that a load-balancer pick on the new snapshot still returned
+  deriving Repr, DecidableEq
+
+def distinct : List String → Bool
+  | [] => true
+  | a :: r => !r.contains a && distinct r
+
+/-- the call succeeded; the live hosts are exactly the initial addresses that are not listed (each once; the ORDER of the host
+set is not part of the property, it is compared with the model only); the stored hosts are the live ones; no listed address is
+served any more. Written over plain address lists only. -/
+def rmHolds (initial addrs : List String) (ob : RmObs) : Bool :=
+  ob.ok && distinct ob.live &&
+  ob.live.all (fun a => initial.contains a && !addrs.contains a) &&
+  initial.all (fun a => addrs.contains a || ob.live.contains a) &&
+  ob.stored == ob.live && ob.served.isEmpty
+
 end Spec
+
+/-- the model's observation of an `rm` case: cluster `c` created, given `hosts`, then `RemoveClusterHosts c addrs`. -/
+def rmObserve (o : Oracle) (hosts : List Host) (addrs : List String) : Spec.RmObs :=
+  let s0 := run o [.addOrUpdateCluster "c" 1 [], .updateHosts "c" hosts]
+  let r := step o s0 (.removeHosts "c" addrs)
+  ⟨r.2, ((r.1.clusters "c").map (fun lc => lc.hosts.map (·.addr))).getD [],
+        ((r.1.cstore "c").map (fun sc => sc.hosts.map (·.addr))).getD [], []⟩
+
 end MosnVerif.Model.Updates
